@@ -5,7 +5,7 @@ MemoryTransport, virtual clock) with the actions of the spec and projects the ob
 """
 import random
 
-from . import core, tlc, fakes
+from . import refwire, core, tlc, fakes
 from .tlaval import norm
 
 from txdbus import client, error, message
@@ -34,6 +34,25 @@ def reply_payload(c, sh):
     if sh == 'arrst':
         return 'a(ss)', [[['as:%d' % c, 'x']]]
     raise ValueError(sh)
+
+
+def _ref(t, x):
+    if t[0] == '(':
+        return tuple(_ref(tt, xx) for tt, xx in zip(refwire.split(t[1:-1]), x))
+    if t[0] == 'a' and t[1] != '{':
+        return [_ref(t[1:], xx) for xx in x]
+    return x
+
+
+def foreign(m, le=True):
+    fields = [('reply_serial', int(m.reply_serial))]
+    if m._messageType == 3:
+        fields.insert(0, ('error_name', m.error_name))
+    if m.destination:
+        fields.append(('destination', m.destination))
+    sig = m.signature or None
+    body = [_ref(t, x) for t, x in zip(refwire.split(sig or ''), m.body or [])] if sig else None
+    return refwire.msg(m._messageType, m.serial, fields, sig, body, le=le, extra=[(20, 'u', 9), (21, 's', 'later')])
 
 
 def decode_value(v, c_default):
@@ -114,7 +133,13 @@ class CallsDriver:
         if own_serial is not None:
             m.serial = own_serial
             m._marshal(False)
-        self.conn.dataReceived(m.rawMessage)
+        self.nfeed = getattr(self, 'nfeed', 0) + 1
+        raw = m.rawMessage
+        if self.nfeed % 2 == 0 and m._messageType in (2, 3):
+            # the peer is another implementation: its own field order, a header field this one does not know ahead of
+            # the others, big-endian every fourth time
+            raw = foreign(m, le=self.nfeed % 4 != 0)
+        self.conn.dataReceived(raw)
 
     def _on_cb(self, v, c):
         kind, sh, frm = decode_value(v, c)
